@@ -550,12 +550,19 @@ func bs(ss []string) [][]byte {
 
 // opKeys is the key list of a batch call (with the repetition factor applied).
 func opKeys(op *Op) []string {
-	if op.Rep <= 1 {
+	if op.Rep <= 1 && op.Fill == 0 {
 		return op.Keys
 	}
-	out := make([]string, 0, len(op.Keys)*op.Rep)
-	for i := 0; i < op.Rep; i++ {
+	rep := op.Rep
+	if rep < 1 {
+		rep = 1
+	}
+	out := make([]string, 0, len(op.Keys)*rep+op.Fill)
+	for i := 0; i < rep; i++ {
 		out = append(out, op.Keys...)
+	}
+	for i := 0; i < op.Fill && len(op.Keys) > 0; i++ {
+		out = append(out, fmt.Sprintf("%s\x01%04d", op.Keys[0], i))
 	}
 	return out
 }
@@ -639,7 +646,7 @@ func (w *world) runActor(a int, wg *sync.WaitGroup) {
 				err = c.BatchPutWithTTL(ctx, bs(op.Keys), bs(vals), op.TTLs)
 			}
 		case "bdel":
-			err = c.BatchDelete(ctx, bs(op.Keys))
+			err = c.BatchDelete(ctx, bs(opKeys(op)))
 		case "delrange":
 			err = c.DeleteRange(ctx, []byte(op.Key), []byte(op.End))
 		case "scan", "rscan":
